@@ -110,3 +110,11 @@ func cmdProbeSurrogate() {
 		fmt.Printf("  %s confidence %v\n", m.Name, m.Confidence)
 	}
 }
+
+// cmdProbeTok: debugging aid: tokens and pseudo matches of each argument line.
+func cmdProbeTok(lines []string) {
+	for _, l := range lines {
+		t, m := classifier.VerifTokenize([]byte(l+"\n"), true)
+		fmt.Printf("%q -> %v matches %v\n", l, t, m)
+	}
+}
